@@ -576,6 +576,9 @@ func unwrapValue(v reflect.Value) any {
 	for isWrapper(v.Type()) {
 		v = v.Field(1)
 	}
+	if v.Type() != timeType && v.Kind() == reflect.Struct && v.Type().ConvertibleTo(timeType) {
+		v = v.Convert(timeType) // named type defined from time.Time
+	}
 	switch v.Kind() {
 	case reflect.String:
 		return v.String()
